@@ -250,6 +250,36 @@ impl IoQueueState {
 //@end
 }
 
+/// n copies of p removed from a multiset
+pub open spec fn remove_n(b: Multiset<u128>, p: u128, n: nat) -> Multiset<u128>
+    decreases n
+{
+    if n == 0 { b } else { remove_n(b, p, (n - 1) as nat).remove(p) }
+}
+
+// R7 slice of IoQueue::on_bytes_consumed: the two statements executed under the state mutex (the lock / drop / notify
+// around them are dropped; `state` is the locked IoQueueState).  A consumed request gives back its bytes and takes its
+// priority out of the in-flight list ONCE PER IOP it had been split into -- otherwise a stale low priority stays in the
+// list for ever and the priority bypass of can_deliver is lost.
+//@extract rust/lance-io/src/scheduler.rs :: impl IoQueue :: fn on_bytes_consumed :: stmts#2..3
+//@ name on_bytes_consumed_locked
+//@ loopfree_fallback
+//@ wrap
+//@| fn on_bytes_consumed_locked(state: &mut IoQueueState, bytes: u64, priority: u128, num_reqs: usize)
+//@ spec
+//@|     requires old(state).priorities_in_flight.wf(), bytes < 0x4000_0000_0000_0000, old(state).bytes_avail < 0x4000_0000_0000_0000,
+//@|     ensures final(state).priorities_in_flight.wf(),
+//@|         final(state).bytes_avail == old(state).bytes_avail + bytes,
+//@|         final(state).iops_avail == old(state).iops_avail,
+//@|         final(state).priorities_in_flight.bag() == remove_n(old(state).priorities_in_flight.bag(), priority, num_reqs as nat),
+//@ at loop:1:iter
+//@| it
+//@ loop 1
+//@|     invariant state.priorities_in_flight.wf(), state.iops_avail == old(state).iops_avail,
+//@|         state.bytes_avail == old(state).bytes_avail + bytes,
+//@|         state.priorities_in_flight.bag() == remove_n(old(state).priorities_in_flight.bag(), priority, it.index@ as nat),
+//@end
+
 /// history lemma: pushing the priorities of issued tasks and removing those of completed ones keeps the multiset
 /// equal to issued-minus-completed, so `min_in_flight` is always the most urgent request still in flight
 pub proof fn lemma_bag_push_remove(b: Multiset<u128>, p: u128)
